@@ -29,7 +29,7 @@ HEXD_ANY = z3.Union(z3.Range("0", "9"), z3.Range("a", "f"), z3.Range("A", "F"))
 ASCII_RE = z3.Star(z3.Range(chr(0), chr(127)))
 
 
-IMMUTABLE_CTORS = {"re.compile", "builtins.frozenset", "builtins.tuple", "builtins.str", "builtins.int", "builtins.float", "builtins.bytes",
+IMMUTABLE_CTORS = {"types.MappingProxyType", "re.compile", "builtins.frozenset", "builtins.tuple", "builtins.str", "builtins.int", "builtins.float", "builtins.bytes",
                    "decimal.Decimal", "fractions.Fraction", "string.Template", "struct.Struct", "operator.itemgetter", "operator.attrgetter"}
 
 
